@@ -190,6 +190,9 @@ class Stream:
         if 'SOURCE_ADDR' in kw:
             last_colon = kw['SOURCE_ADDR'].rfind(':')
             self.source_addr = kw['SOURCE_ADDR'][:last_colon]
+            if self.source_addr.startswith('[') and self.source_addr.endswith(']'):
+                # an IPv6 address is printed as [addr]:port
+                self.source_addr = self.source_addr[1:-1]
             if self.source_addr != '(Tor_internal)':
                 self.source_addr = maybe_ip_addr(self.source_addr)
             self.source_port = int(kw['SOURCE_ADDR'][last_colon + 1:])
